@@ -612,7 +612,8 @@ def c12(run):
         # the packet around the header varies too: small, larger than 512 bytes, larger than the payload its OPT
         # record advertises (512 / 1232 / 4096 / 65535), larger than 8192
         pad, payload = [(0, 1232), (600, 512), (1300, 1232), (0, 65535), (5000, 4096), (9000, 1232), (700, 65535)][len(scen) % 7]
-        scen.append(json.dumps({"do": "hdr", "w": w, "tid": rnd.randrange(65536), "xfl": rnd.choice([-1, 0x8000, 0, 0xffff]), "pad": pad, "payload": payload,
+        xrcode, ver = [(2, 1), (0, 0), (1, 0), (0x10, 0), (0xff, 0), (0, 0xff)][(len(scen) // 7) % 6]
+        scen.append(json.dumps({"do": "hdr", "w": w, "tid": rnd.randrange(65536), "xfl": rnd.choice([-1, 0x8000, 0, 0xffff]), "pad": pad, "payload": payload, "xrcode": xrcode, "ver": ver,
                                 "fa": fa, "rv": rv, "ov": rv, "tv": [0, 1, 255, 256, 65535, rnd.randrange(65536)]}, separators=(",", ":")))
     if not quick(run):
         scen.append(json.dumps({"do": "decomp", "threads": vlib.NCPU}))
